@@ -167,6 +167,12 @@ func RandomOps(r *rand.Rand, o GenOpts) []Op {
 		default:
 			op = Op{K: KSkip, Names: []string{}}
 		}
+		switch r.Intn(8) {
+		case 0, 1:
+			op = Op{K: KAllowNoAttrs, Scope: "global"} // AllowNoAttrs().Globally(): no attribute names, nothing to bind
+		case 2:
+			op = Op{K: KKeep, Names: []string{}} // AllowElementsContent(): no names, nothing changes
+		}
 		at := 1 + r.Intn(len(ops))
 		ops = append(ops[:at], append([]Op{op}, ops[at:]...)...)
 	}
